@@ -274,9 +274,46 @@ def gen_base(rng, tier):
         thr = rng.randint(20, 64) / 64.0
     case = {"numbers": numbers, "positions": pos, "cell": cell, "pbc": pbc, "thr": thr, "radii": radii,
             "meta": {"cell_kind": kind, "shape": shape, "grid": g, "radii_mode": mode, "variant": "base"}}
+    if mode == "custom" and rng.random() < 0.35:
+        case = exact_tie(rng, case)
     if rng.random() < 0.4 and any(pbc):
         case = shift_atoms(rng, case, 5)
     return case
+
+
+def exact_tie(rng, case):
+    """put a bond EXACTLY on the threshold: among the image pairs (i, j, o), |o| <= 1, whose distance is a grid number (perfect
+    square on the 2^-12 grid; with dyadic radii every float operation of the implementation on it is exact) choose one and set
+    thr = d - r_i - r_j.  The statement links atoms when distance minus radii <= threshold, so that pair is bonded."""
+    P = grid_ints(case["positions"])
+    Cc = grid_ints(case["cell"])
+    if P is None or Cc is None:
+        return case
+    n = len(P)
+    rad = case["radii"]
+    cands = []
+    rngs = [(-1, 0, 1) if case["pbc"][k] else (0,) for k in range(3)]
+    for x in rngs[0]:
+        for y in rngs[1]:
+            for z in rngs[2]:
+                ov = np.array([x, y, z], dtype=np.int64) @ Cc
+                for i in range(n):
+                    for j in range(i, n):
+                        if i == j and (x, y, z) <= (0, 0, 0):
+                            continue
+                        d = P[i] - P[j] - ov
+                        d2 = int((d * d).sum())
+                        r = math.isqrt(d2)
+                        if r * r == d2 and r > 0:
+                            t = r / G - rad[i] - rad[j]
+                            if 0.05 <= t <= 3.5 and (Fraction(t) * 4096).denominator == 1:
+                                cands.append(t)
+    if not cands:
+        return case
+    c = dict(case)
+    c["thr"] = rng.choice(sorted(set(cands)))
+    c["meta"] = dict(case["meta"], exact_tie=True)
+    return c
 
 
 def shift_atoms(rng, case, m):
@@ -688,6 +725,7 @@ def run(ctx):
         "structures": len(cases), "pairs": len(pairs), "pairs_by_kind": {k: sum(1 for p in pairs if p[2] == k) for k in ("permute", "shift", "unimodular", "rigid", "supercell")},
         "oracle_dimension_histogram": hist, "none_count": hist.get("None", 0),
         "structures_with_atoms_outside_cell": sum(1 for c in cases if c["_orc"]["info"]["shifted"] > 0),
+        "exact_tie_cases(a bond exactly on the threshold, decided <= in exact arithmetic)": sum(1 for c in cases if c.get("meta", {}).get("exact_tie")),
         "near_tie_excluded": near, "rank_mismatch_exclusions": len(excl_mismatch),
         "rank_mismatch_examples": [strip(cases[i]) for i in excl_mismatch[:2]],
         "supercell_disconnects_network(None required)": sc_disconnect,
